@@ -299,8 +299,17 @@ fn shared_rule(rng: &mut Rng, id: String, lang: &'static str, f: &str) -> RuleSp
     ("constraints", json!({"A": {"has": {"kind": "number", "pattern": "$X", "stopBy": "end"}}, "B": {"pattern": "g($X)"}})),
     ("message", json!("shared $X")),
   ]);
-  let hits = (0..5).map(|_| { let (a, b) = (rng.range(1, 4), rng.range(5, 9)); format!("{f}(q({a}, {b}), g({b}));") }).collect();
-  let misses = vec![format!("{f}(1, 2);")];
+  // Since ec1c602 the constraints run in the order of the variable names (A, then B): `$X` is the
+  // first number below `$A`, and `$B` must be `g` of it. `hits` match under that order (and under
+  // any other). The order-sensitive snippets — the number `g` is applied to occurs below `$A`, but
+  // not first — do NOT match under the fixed order and would match if B ran first: they are what a
+  // regression to hash-order iteration makes unstable (scan records, `test -U` / `test`).
+  let hits = (0..5).map(|_| { let (a, b) = (rng.range(1, 4), rng.range(5, 9)); format!("{f}(q({b}, {a}), g({b}));") }).collect();
+  let mut misses = vec![format!("{f}(1, 2);")];
+  for _ in 0..3 {
+    let (a, b) = (rng.range(1, 4), rng.range(5, 9));
+    misses.push(format!("{f}(q({a}, {b}), g({b}));"));
+  }
   RuleSpec { id, lang, doc, feats: vec!["constraints-shared-var"], shared: true, hits, misses }
 }
 
@@ -702,7 +711,7 @@ pub fn process(ctx: &Ctx, rng: &mut Rng, o: &mut Out) {
     }
     // generator self-check: every rule (but the order-dependent one) has findings, in several files
     let per_rule = |id: &str| runs[0].recs.iter().filter(|r| r.1 == id).count();
-    let unmatched: Vec<&String> = p.rules.iter().filter(|r| !r.shared && per_rule(&r.id) < 2).map(|r| &r.id).collect();
+    let unmatched: Vec<&String> = p.rules.iter().filter(|r| per_rule(&r.id) < 2).map(|r| &r.id).collect();
     if !unmatched.is_empty() {
       let yaml: BTreeMap<String, String> = rules_yaml(&p, &base, &mut None).into_iter().collect();
       o.oracle("c13-generator", false, json!({"fp": "c13 generator-rule-without-findings", "project": idx, "rules": unmatched, "yaml": yaml}));
@@ -741,11 +750,20 @@ pub fn process(ctx: &Ctx, rng: &mut Rng, o: &mut Out) {
     if !bad.is_empty() {
       o.oracle("c13-snapshot-order", false, json!({"fp": "c13 snapshot-keys-not-sorted", "project": idx, "files": bad}));
     }
-    let has_shared = p.rules.iter().any(|r| r.shared);
-    if u0.code != 0 && u0.code != HANG && !has_shared {
-      let yaml: BTreeMap<String, String> = rules_yaml(&p, &base, &mut None).into_iter().collect();
-      o.oracle("c13-generator", false, json!({"fp": "c13 generator-invalid-project", "project": idx, "what": "test -U fails", "exit": u0.code,
-        "failed": failed_rules(&u0), "stdout": strip_ansi(&u0.out).chars().take(1500).collect::<String>(), "yaml": yaml}));
+    if u0.code != 0 && u0.code != HANG {
+      // the generated `valid` / `invalid` expectations hold for the code as it is; a failure that
+      // only concerns the shared-variable rule is what a regression to hash-order iteration of the
+      // constraints looks like (class shared-var), anything else is a generator bug
+      let failed = failed_rules(&u0);
+      let shared_only = !failed.is_empty() && failed.iter().all(|id| p.rules.iter().any(|r| r.shared && r.id == *id));
+      if shared_only {
+        cs.note("update-fails", failed.first().map(|s| s.as_str()), format!("`test -U` exits {}; failed rules {:?}", u0.code, failed));
+        cs.ids.extend(failed);
+      } else {
+        let yaml: BTreeMap<String, String> = rules_yaml(&p, &base, &mut None).into_iter().collect();
+        o.oracle("c13-generator", false, json!({"fp": "c13 generator-invalid-project", "project": idx, "what": "test -U fails", "exit": u0.code,
+          "failed": failed, "stdout": strip_ansi(&u0.out).chars().take(1500).collect::<String>(), "yaml": yaml}));
+      }
     }
     let t0 = sg.run(d0.path(), &["test"]);
     for (lbl, r) in [("test -U", &u0), ("test after -U", &t0)] {
